@@ -1186,6 +1186,16 @@ def streams(tier, rng):
 
 
 def classify_known(stream, case, impl, failure):
+    # C12-usage-hidden-group-member: Usage::write_args prints a listed (required) group through format_group, which joins
+    # ALL members -- a hidden optional member appears in the usage line as `<--a|--z>`
+    if isinstance(failure, str) and failure.startswith("hidden optional argument ") and "appears in the usage" in failure:
+        m = re.match(r"hidden optional argument (\S+) appears", failure)
+        if m:
+            aid = m.group(1)
+            for g in re.finditer(r"\(group \S+ \(args ([^()]*)\)", case):
+                members = g.group(1).split()
+                if aid in members or ("x" + aid.encode().hex()) in members or aid.strip("b'\"") in members:
+                    return "C12-usage-hidden-group-member"
     return None
 
 
